@@ -87,8 +87,6 @@ package ext
 //@   props C01, C03, C11
 //@   panics
 //@   requires r != nil && 0 < maxBodySize && maxBodySize <= 70368744177664
-//@   replay-import errors
-//@   replay-decl type vcgoWire3 struct{ b []byte; pos int }; func (w *vcgoWire3) Peek(n int) ([]byte, error) { if n < 0 || w.pos+n > len(w.b) { return w.b[w.pos:], errors.New("EOF") }; return w.b[w.pos : w.pos+n], nil }; func (w *vcgoWire3) Skip(n int) error { if w.pos+n > len(w.b) { return errors.New("EOF") }; w.pos += n; return nil }; func (w *vcgoWire3) Release() error { return nil }; func (w *vcgoWire3) Len() int { return len(w.b) - w.pos }; func (w *vcgoWire3) ReadByte() (byte, error) { if w.pos >= len(w.b) { return 0, errors.New("EOF") }; w.pos++; return w.b[w.pos-1], nil }; func (w *vcgoWire3) ReadBinary(n int) ([]byte, error) { p, err := w.Peek(n); if err != nil { return nil, err }; w.pos += n; return append([]byte(nil), p...), nil }
 //@   modifies r.pos, r.avail, r.failed, mem
 //@   allocates
 //@   top-ensures err == nil && maxBodySize > 0 ==> len(res) <= maxBodySize
@@ -108,7 +106,8 @@ package ext
 // whatever the peer announces; the callee preconditions below cannot be established in that case.
 //@ func ReadBody(r, contentLength, maxBodySize, dst) res, err
 //@   props C01, C03, C11
-//@   panics
+//@   replay-import errors
+//@   replay-decl type vcgoWire3 struct{ b []byte; pos int }; func (w *vcgoWire3) Peek(n int) ([]byte, error) { if n < 0 || w.pos+n > len(w.b) { return w.b[w.pos:], errors.New("EOF") }; return w.b[w.pos : w.pos+n], nil }; func (w *vcgoWire3) Skip(n int) error { if w.pos+n > len(w.b) { return errors.New("EOF") }; w.pos += n; return nil }; func (w *vcgoWire3) Release() error { return nil }; func (w *vcgoWire3) Len() int { return len(w.b) - w.pos }; func (w *vcgoWire3) ReadByte() (byte, error) { if w.pos >= len(w.b) { return 0, errors.New("EOF") }; w.pos++; return w.b[w.pos-1], nil }; func (w *vcgoWire3) ReadBinary(n int) ([]byte, error) { p, err := w.Peek(n); if err != nil { return nil, err }; w.pos += n; return append([]byte(nil), p...), nil }
 //@   replay-go w := &vcgoWire3{b: []byte("7ffffffffffffff\r\nabc")}; _, _ = ReadBody(w, -1, 0, nil); fmt.Println("VCGO-NOTE chunked: no panic")
 //@   replay-go w := &vcgoWire3{b: []byte("abc")}; _, _ = ReadBody(w, 1<<62, 0, nil); fmt.Println("VCGO-NOTE fixed: no panic")
 //@   requires r != nil && maxBodySize <= 70368744177664 && r.avail >= 0
